@@ -1,4 +1,5 @@
 import LK.Generated.GuardsC18
+import LK.Model.Train
 /-!
 # C18 — obligations on the translated seed handling of `Pipeline.train`
 -/
@@ -20,5 +21,63 @@ theorem zero_is_a_seed (wrapped : LK.Py.V) : trainSeed false false (some 0) wrap
 theorem trainCompOptions_spec (opts seed spawnedOpts : LK.Py.V) :
     trainCompOptions opts seed spawnedOpts = (match seed with | none => opts | some _ => spawnedOpts) := by
   cases seed <;> simp [trainCompOptions, LK.Py.truthy]
+
+/-! ### the retrain guard of every shipped trainable component
+
+Each `train` starts with `if <already trained> and not options.retrain: return` (the translator also checks that the branch simply
+returns and that nothing of the component is assigned before it).  `guardSpec` is the guard of the training model `LK.Train.train`. -/
+
+def guardSpec (trained retrain : Bool) : Nat := if trained && !retrain then 0 else 1
+
+/-- branch 0 (skip) of the guard is exactly the case in which `LK.Train.train` leaves the component as it is; branch 1 replaces the
+    learned state by what a fresh component learns -/
+theorem guardSpec_is_model {δ σ} (learn : δ → σ) (c : LK.Train.Comp σ) (d : δ) (retrain : Bool) :
+    LK.Train.train learn c d retrain = (if guardSpec c.learned.isSome retrain = 0 then c else { learned := some (learn d) }) := by
+  cases h : c.learned.isSome <;> cases retrain <;> simp [LK.Train.train, guardSpec, h]
+
+theorem guardBaseRec_spec (trained retrain : Bool) : guardBaseRec trained retrain = guardSpec trained retrain := by
+  cases trained <;> cases retrain <;> rfl
+
+theorem guardItemKNNScorer_spec (trained retrain : Bool) : guardItemKNNScorer trained retrain = guardSpec trained retrain := by
+  cases trained <;> cases retrain <;> rfl
+
+theorem guardUserKNNScorer_spec (trained retrain : Bool) : guardUserKNNScorer trained retrain = guardSpec trained retrain := by
+  cases trained <;> cases retrain <;> rfl
+
+theorem guardFunkSVDScorer_spec (trained retrain : Bool) : guardFunkSVDScorer trained retrain = guardSpec trained retrain := by
+  cases trained <;> cases retrain <;> rfl
+
+theorem guardBiasedSVDScorer_spec (trained retrain : Bool) : guardBiasedSVDScorer trained retrain = guardSpec trained retrain := by
+  cases trained <;> cases retrain <;> rfl
+
+theorem guardHPFScorer_spec (trained retrain : Bool) : guardHPFScorer trained retrain = guardSpec trained retrain := by
+  cases trained <;> cases retrain <;> rfl
+
+theorem guardUserTrainingHistoryLookup_spec (trained retrain : Bool) : guardUserTrainingHistoryLookup trained retrain = guardSpec trained retrain := by
+  cases trained <;> cases retrain <;> rfl
+
+theorem guardKnownRatingScorer_spec (trained retrain : Bool) : guardKnownRatingScorer trained retrain = guardSpec trained retrain := by
+  cases trained <;> cases retrain <;> rfl
+
+theorem guardBiasScorer_spec (trained retrain : Bool) : guardBiasScorer trained retrain = guardSpec trained retrain := by
+  cases trained <;> cases retrain <;> rfl
+
+theorem guardTrainingCandidateSelectorBase_spec (trained retrain : Bool) : guardTrainingCandidateSelectorBase trained retrain = guardSpec trained retrain := by
+  cases trained <;> cases retrain <;> rfl
+
+theorem guardPopScorer_spec (trained retrain : Bool) : guardPopScorer trained retrain = guardSpec trained retrain := by
+  cases trained <;> cases retrain <;> rfl
+
+theorem guardTimeBoundedPopScore_spec (trained retrain : Bool) : guardTimeBoundedPopScore trained retrain = guardSpec trained retrain := by
+  cases trained <;> cases retrain <;> rfl
+
+theorem guardIterativeTraining_spec (trained retrain : Bool) : guardIterativeTraining trained retrain = guardSpec trained retrain := by
+  cases trained <;> cases retrain <;> rfl
+
+/-- a (re)training starts its epoch count from zero — the count is part of the model's state and must describe the latest training only;
+    a skipped training leaves it as it is -/
+theorem epochsAtLoopStart_spec (epochs : LK.Py.V) (trained retrain : Bool) :
+    epochsAtLoopStart epochs trained retrain = (if guardSpec trained retrain = 0 then epochs else some 0) := by
+  cases trained <;> cases retrain <;> simp [epochsAtLoopStart, guardSpec]
 
 end LK.Gen.GuardsC18
